@@ -91,6 +91,10 @@ type C15Case struct {
 	// (restful.NewResponse(resp)) and writes through the wrapper; the filters keep observing the
 	// Response they passed on
 	Rewrap bool `json:"rewrap,omitempty"`
+	// RouteOff: the container encodes, the route opted out (ContentEncodingEnabled(false)) and the
+	// request arrives through ServeHTTP; whatever the framework then does about the coding, the
+	// bookkeeping must match what the underlying writer received
+	RouteOff bool `json:"route_off,omitempty"`
 }
 
 type c15Entity struct {
@@ -128,7 +132,10 @@ func genC15(t *rapid.T) C15Case {
 	c.FailPos = -1
 	if c.Encoding == "" && rapid.IntRange(0, 2).Draw(t, "fails") > 0 {
 		c.FailPos = rapid.IntRange(0, 1050).Draw(t, "failpos")
+	} else if c.Encoding != "" && rapid.IntRange(0, 3).Draw(t, "failsundercoding") == 0 {
+		c.FailPos = rapid.IntRange(0, 1050).Draw(t, "failpos")
 	}
+	c.RouteOff = c.Encoding != "" && !c.Plain && rapid.IntRange(0, 4).Draw(t, "routeoff") == 0
 	return c
 }
 
@@ -162,6 +169,9 @@ func runC15(c C15Case, failAt int) (cw *countingWriter, obs c15Obs, vs []*Violat
 	rb := ws.GET("/x")
 	if len(c.Produces) > 0 {
 		rb.Produces(c.Produces...)
+	}
+	if c.RouteOff {
+		rb.ContentEncodingEnabled(false)
 	}
 	if c.Middleware {
 		rb.Filter(restful.HttpMiddlewareHandlerToFilter(func(next http.Handler) http.Handler {
@@ -254,7 +264,7 @@ func runC15(c C15Case, failAt int) (cw *countingWriter, obs c15Obs, vs []*Violat
 	hr := harness.NewHTTPRequest(req, "0")
 	func() {
 		defer func() { panicked = recover() }()
-		if c.Plain {
+		if c.Plain || c.RouteOff {
 			ct.ServeHTTP(cw, hr)
 			return
 		}
@@ -274,7 +284,7 @@ func checkC15(c C15Case) (vs []*Violation) {
 	}
 	total := dry.accepted
 	failAt := -1
-	if c.FailPos >= 0 && c.Encoding == "" {
+	if c.FailPos >= 0 {
 		failAt = total * c.FailPos / 1000
 		if c.FailPos > 1000 {
 			failAt = total + 1
@@ -301,10 +311,27 @@ func checkC15(c C15Case) (vs []*Violation) {
 	}
 	// length
 	wantLen := cw.accepted
-	if c.Encoding != "" {
+	ce := cw.header.Get("Content-Encoding")
+	if ce != "" && failAt >= 0 {
+		// a coding in between and a failing writer: "accepted before coding" cannot be measured
+		// from outside; what can is that the count is neither negative nor more than was written
+		written := 0
+		for _, op := range c.Ops {
+			if op.Call == "Write" {
+				written += op.Size
+			}
+		}
+		labels = append(labels, "failure_under_a_coding")
+		if obs.length < 0 || (len(c.Ops) > 0 && c.Ops[0].Call == "Write" && obs.length > written) {
+			vs = append(vs, viol("", "%s: ContentLength()=%d although %d bytes were handed to Write in total", desc, obs.length, written))
+		}
+		st.Case(c, failAt < total, labels...)
+		return vs
+	}
+	if ce != "" {
 		var r io.Reader
 		var err error
-		if c.Encoding == "gzip" {
+		if ce == "gzip" {
 			r, err = gzip.NewReader(bytes.NewReader(cw.buf.Bytes()))
 		} else {
 			r, err = zlib.NewReader(bytes.NewReader(cw.buf.Bytes()))
